@@ -35,6 +35,10 @@ CLAIMED = {
          "The ANTLR lexer/parser itself (termination, acceptance, rejection) is OUTSIDE the encoding: this check does not decide 'every input string'. Token stubs follow the stated ANTLR contract."),
  "C15": ("§6 C15", "SCOPED to range arithmetic: tokenToRange and ctxToRange on tokens whose text is any valid UTF-8 of the layout (symbolic bytes) at symbolic positions span exactly the character count, children lie within parents and siblings do not overlap; Position.GtEq is the lexicographic total order and Range.Contains the closed interval, for all positions.",
          "Tree structure, literal values, associativity and layout/comment invariance depend on the ANTLR parse and are OUTSIDE."),
+ "C16": ("§6 C16", "analysis.CheckProgram executed in the VM on parser-produced trees: 13 statically valid templates get no error (literal portion numerators symbolic: accepted exactly when they sum to one); for name templates every declaration and every use takes every name of a pool (all deletions, duplications, renamings): unbound / duplicate / unused variables are reported exactly once at their token and nothing else is.",
+         "Template lists are finite; names and types are finite choices concretised by forking; numerators are unbounded."),
+ "C17": ("§6 C17", "CheckProgram then RunProgram inside one symbolic path for valid templates with up to one (thorough: two) mis-declared variable types over all six types, and 47 type-breaking edits; whenever the checker reports no error the run (all integers as numbers/amounts, symbolic balances) does not fail with TypeError, UnboundVariable, UnboundFunction, BadArity or InvalidType; with no diagnostics at all, not with a send-all shape error either.",
+         "Template lists are finite; non-numeric variable values take one representative each."),
 }
 
 NA = {}
